@@ -20,6 +20,41 @@ class ImplError(Exception):
     pass
 
 
+class Injected(Exception):
+    """raised on purpose by a user callback of the harness (fault-path scenarios)"""
+
+
+class SkipCase(Exception):
+    """the scenario left the part of the input space the check speaks about (e.g. an injected fault hit after the
+    operation had already modified the dendrogram); the case is dropped, nothing is concluded from it"""
+
+
+def raiser(after=0):
+    """an is_independent criterion that raises `Injected` at its (after+1)-th call"""
+    state = {'n': 0}
+
+    def crit(structure, index=None, value=None):
+        state['n'] += 1
+        if state['n'] > after:
+            raise Injected('criterion failed on purpose')
+        return True
+    crit.state = state
+    return crit
+
+
+def as_container(fs, style):
+    """the criteria in the container the case asks for: is_independent may be any iterable, also a one-shot one"""
+    if style == 'tuple':
+        return tuple(fs)
+    if style == 'iter':
+        return iter(list(fs))
+    if style == 'gen':
+        return (f for f in list(fs))
+    if style == 'map':
+        return map(lambda f: f, list(fs))
+    return fs
+
+
 # ---------------------------------------------------------------------------------------------
 # cases
 #
@@ -183,9 +218,10 @@ def npix_param(v):
     return int(math.ceil(float(v)))
 
 
-def compute_impl(case, verbose=False, neighbours_obj=None):
-    """run Dendrogram.compute on the case; returns (dendrogram, data array)"""
-    a = make_array(case)
+def compute_impl(case, verbose=False, neighbours_obj=None, arr=None, fail=None):
+    """run Dendrogram.compute on the case; returns (dendrogram, data array).  `arr`: use this array object;
+    `fail` = ('crit', k) / ('nbrs', k): a user callback raises `Injected` at its (k+1)-th call"""
+    a = make_array(case) if arr is None else arr
     unit = float(2 ** case['fb'])
     kw = {}
     if case['minv'] != 'min':
@@ -201,6 +237,8 @@ def compute_impl(case, verbose=False, neighbours_obj=None):
     fs = user_criteria(case, unit)
     if fs:
         kw['is_independent'] = fs if len(fs) > 1 or case.get('crit_as_list') else fs[0]
+        if case.get('crit_container', 'list') != 'list' and not case.get('reuse'):
+            kw['is_independent'] = as_container(fs, case['crit_container'])
     if case.get('periodic'):
         per = list(case['periodic'])
         if case.get('per_negative'):
@@ -227,6 +265,19 @@ def compute_impl(case, verbose=False, neighbours_obj=None):
         with warnings.catch_warnings():
             warnings.simplefilter('ignore')
             Dendrogram.compute(other, **kw0)
+    if fail is not None:
+        if fail[0] == 'crit':
+            kw['is_independent'] = list(fs) + [raiser(fail[1])]
+        else:
+            inner = kw.get('neighbours') or Dendrogram.neighbours
+            cnt = {'n': 0}
+
+            def failing_neighbours(dendrogram, idx, inner=inner, cnt=cnt, k=fail[1]):
+                cnt['n'] += 1
+                if cnt['n'] > k:
+                    raise Injected('neighbours failed on purpose')
+                return inner(dendrogram, idx)
+            kw['neighbours'] = failing_neighbours
     with warnings.catch_warnings():
         warnings.simplefilter('ignore')
         if verbose:
